@@ -20,6 +20,7 @@ import (
 	"time"
 
 	"github.com/attestantio/dirk/util/loggers"
+	"github.com/attestantio/dirk/util/verifhook"
 	badger "github.com/dgraph-io/badger/v2"
 	"github.com/dgraph-io/badger/v2/options"
 	"github.com/opentracing/opentracing-go"
@@ -127,6 +128,10 @@ func (s *Store) FetchAll(_ context.Context) (map[[49]byte][]byte, error) {
 
 // Fetch fetches a value for a given key.
 func (s *Store) Fetch(ctx context.Context, key []byte) ([]byte, error) {
+	if err := verifhook.Point("store.fetch.enter", key); err != nil {
+		return nil, err
+	}
+	defer verifhook.Exit("store.fetch.exit", key)
 	span, _ := opentracing.StartSpanFromContext(ctx, "storage.Fetch")
 	defer span.Finish()
 
@@ -163,6 +168,10 @@ func (s *Store) Fetch(ctx context.Context, key []byte) ([]byte, error) {
 
 // BatchStore stores multiple keys and values.
 func (s *Store) BatchStore(ctx context.Context, keys [][]byte, values [][]byte) error {
+	if err := verifhook.Point("store.batch.enter", keys...); err != nil {
+		return err
+	}
+	defer verifhook.Exit("store.batch.exit", keys...)
 	span, _ := opentracing.StartSpanFromContext(ctx, "storage.BatchStore")
 	defer span.Finish()
 
@@ -195,6 +204,10 @@ func (s *Store) BatchStore(ctx context.Context, keys [][]byte, values [][]byte) 
 
 // Store stores the value for a given key.
 func (s *Store) Store(ctx context.Context, key []byte, value []byte) error {
+	if err := verifhook.Point("store.store.enter", key); err != nil {
+		return err
+	}
+	defer verifhook.Exit("store.store.exit", key)
 	span, _ := opentracing.StartSpanFromContext(ctx, "storage.Store")
 	defer span.Finish()
 
